@@ -172,6 +172,12 @@ uint64_t cmb_wtdsummary_merge(struct cmb_wtdsummary *tgt,
     const double w1 = ws1->wsum;
     const double w2 = ws2->wsum;
     const double ws = w1 + w2;
+    if (ts->count == 0u) {
+        /* Both are empty, so is the result. Avoid dividing zero by zero below. */
+        *tgt = tws;
+        return 0u;
+    }
+
     const double d21 = dsp2->m1 - dsp1->m1;
     const double d21_w = d21 / ws;
     const double d21_w_2 = d21_w * d21_w;
